@@ -468,7 +468,7 @@ func genC20Targeted(r *kernel.RNG, tier string, i int) interface{} {
 }
 
 func genC20Generated(r *kernel.RNG, tier string, i int) interface{} {
-	forms := genProgram(r, r.Range(2, 8), false, true)
+	forms := genProgramNoClock(r, r.Range(2, 8), false, true)
 	var prog []string
 	for _, f := range forms {
 		// the host probes of the vmsession generator are not registered here: make them plain integers
